@@ -180,6 +180,10 @@ Definition coerce_float {A} (py_float : A -> jnum) (x : A) : outcome jnum :=
      st_validation   errors of validate_ast (empty = valid)
      st_opselect     Some message when get_operation_with_type raises
      st_varcoercion  errors of coerce_variable_values (empty = ok)
+     st_rootcoercion the CoercionError of collecting the root fields (invalid
+                     @skip / @include arguments on the root selection set, e.g. a
+                     nullable variable with a default supplied as null): execute()
+                     collects them before the execution stage starts (empty = ok)
      st_float_returns  the values resolvers returned for Float-typed fields
      st_exec         (data, errors) of the executor on success *)
 Record stages := Stages {
@@ -187,10 +191,18 @@ Record stages := Stages {
   st_validation : list gql_error;
   st_opselect : option str;
   st_varcoercion : list gql_error;
+  st_rootcoercion : list gql_error;
   st_float_returns : list jnum;
   st_exec : json * list gql_error }.
 
 Definition crash_RuntimeError : nat := 2.
+
+Definition failed_early_pre (st : stages) : bool :=
+  match st_parse st, st_validation st with
+  | Some _, _ => true
+  | None, _ :: _ => true
+  | None, [] => false
+  end.
 
 Definition process (st : stages) : outcome gql_result :=
   match st_parse st with
@@ -205,18 +217,24 @@ Definition process (st : stages) : outcome gql_result :=
   match st_varcoercion st with
   | _ :: _ => Ok (Result (Some JNull) (st_varcoercion st))           (* except VariablesCoercionError *)
   | [] =>
+  match st_rootcoercion st with
+  | _ :: _ => Ok (Result (Some JNull) (st_rootcoercion st))          (* except CoercionError *)
+  | [] =>
       if forallb (fun f => match coerce_float (fun x => x) f with Ok _ => true | _ => false end)
                  (st_float_returns st)
       then Ok (Result (Some (fst (st_exec st))) (snd (st_exec st)))
       else Crash crash_RuntimeError
-  end end end end.
+  end end end end end.
 
-Definition failed_early (st : stages) : bool :=
-  match st_parse st, st_validation st with
-  | Some _, _ => true
-  | None, _ :: _ => true
-  | None, [] => false
-  end.
+(* the request was aborted after validation and before any field was
+   executed: _abort(data=None, errors=...) *)
+Definition aborted_before_execution (st : stages) : bool :=
+  negb (failed_early_pre st) &&
+  (match st_opselect st with Some _ => true | None => false end ||
+   match st_varcoercion st with _ :: _ => true | [] => false end ||
+   match st_rootcoercion st with _ :: _ => true | [] => false end).
+
+Definition failed_early (st : stages) : bool := failed_early_pre st.
 
 Definition pipeline_model (doc : str) (st : stages) : outcome json :=
   do r <- process st; response doc r.
